@@ -85,8 +85,40 @@ func hostileValues(w int) []uint64 {
 }
 
 // hostileCases builds the deterministic hostile input list of one decoder.
+// minWire is a lower bound, from the pinned schema, on the length of ANY image the decoder of t can accept:
+// fixed-width fields count in full, variable-length ones with their prefix only, bodies and extensions with 0.
+func minWire(e *Env, t *schema.Type, depth int) int {
+	n := 0
+	for i := range t.Fields {
+		f := &t.Fields[i]
+		switch f.Kind {
+		case "fixstr":
+			n += f.N
+		case "pstr", "list", "objlist", "bodylen", "checksum":
+			n += schema.Width(f.Prefix)
+		case "struct":
+			if st := e.S.Lookup(t.Pkg, f.Type); st != nil && depth < 6 {
+				n += minWire(e, st, depth+1)
+			}
+		case "union":
+		default:
+			n += schema.Width(f.Kind)
+		}
+	}
+	return n
+}
+
 func hostileCases(e *Env, t *schema.Type) []hcase {
 	var cs []hcase
+	// (00) fewer bytes than any message of this type can have, starting with none at all: must be rejected
+	if mw := minWire(e, t, 0); mw > 0 {
+		rs := gen.NewRng(e.Seed, "hostile-short", t.QName)
+		for _, l := range []int{0, 1, 2, 3, mw / 2, mw - 1} {
+			if l >= 0 && l < mw {
+				cs = append(cs, hcase{kind: "shorter-than-any-message", in: rs.Bytes(l)}, hcase{kind: "shorter-than-any-message", in: make([]byte, l)})
+			}
+		}
+	}
 	nRand := e.N(400, 6000)
 	nMut := e.N(400, 6000)
 	nPre := e.N(150, 2000)
@@ -394,6 +426,10 @@ func hostileChild(e *Env, ca childArgs) {
 					r.Violate("C09/panic/"+t.QName, "C09/panic/"+t.QName, det(map[string]any{"panic": p.Value, "stack": p.Stack}))
 					continue
 				}
+				if mw := minWire(e, t, 0); err == nil && len(c.in) < mw {
+					r.Violate("C09/success-on-fewer-bytes-than-any-message/"+t.QName, "C09/success-on-fewer-bytes-than-any-message/"+t.QName, det(map[string]any{"shortest_possible_message": mw, "observed": "Decode returned nil: neither a decoded message (there are not enough bytes for one) nor an error", "receiver_after": val.Summary(d, 200)}))
+					continue
+				}
 				if lim := uint64(stepConst + stepPerByte*len(c.in)); mallocs > lim {
 					r.Violate("C09/steps-not-proportional/"+t.QName, "C09/steps-not-proportional/"+t.QName, det(map[string]any{"bound_mallocs": lim, "decode_error": errStr(err)}))
 					continue
@@ -523,7 +559,7 @@ func hostile(e *Env) {
 		return
 	}
 	r := e.R
-	r.Rule("every decoder (170 types) × hostile inputs, case i a pure function of (seed, type, i): (a) uniformly random bytes of 0..4096 bytes; (b) strict prefixes of valid images; (c) valid images with 1..8 bit flips / byte substitutions; (d) site-directed: for EVERY text-length / list-count token and every frame body-length word of valid images (one base image per registered discriminator key) the token is set to each of {max, max-1, 2^31, 2^31-1, 2^16, 0x0100, ...} in the module's byte order and in the opposite one, (for counts also every value whose product with a plausible element size wraps around the prefix width, and powers of two) followed by nothing, 1 byte, 16 bytes, or the valid remainder, half of them handed over in a receive buffer with 4 MiB of spare capacity; (e) unknown and near-miss discriminators; plus legitimate large images (1000- and 65535-element lists actually present) that must stay inside the bound. distinct_nontrivial = distinct non-empty inputs")
+	r.Rule("every decoder (170 types) × hostile inputs, case i a pure function of (seed, type, i): (00) inputs shorter than the shortest possible message of the type, starting with the empty input - a nil result there is neither a message nor an error; (a) uniformly random bytes of 0..4096 bytes; (b) strict prefixes of valid images; (c) valid images with 1..8 bit flips / byte substitutions; (d) site-directed: for EVERY text-length / list-count token and every frame body-length word of valid images (one base image per registered discriminator key) the token is set to each of {max, max-1, 2^31, 2^31-1, 2^16, 0x0100, ...} in the module's byte order and in the opposite one, (for counts also every value whose product with a plausible element size wraps around the prefix width, and powers of two) followed by nothing, 1 byte, 16 bytes, or the valid remainder, half of them handed over in a receive buffer with 4 MiB of spare capacity; (e) unknown and near-miss discriminators; plus legitimate large images (1000- and 65535-element lists actually present) that must stay inside the bound. distinct_nontrivial = distinct non-empty inputs")
 	if r.Prop == "C09" {
 		r.Explain(fmt.Sprintf("Oracle: Decode returns normally (nil or error): no recovered panic; the child process (RLIMIT_AS 2 GiB, single goroutine) does not die (fatal out-of-memory / stack exhaustion bypass recover and are seen as process death with the pre-logged in-flight input as witness); step proxy: heap objects allocated during the call <= %d + %d*len(input) (every loop iteration of every reader allocates at least once, so this bounds the number of reader steps independently of machine load); a wall-clock watchdog only triggers an isolated re-run and is never a verdict by itself.", stepConst, stepPerByte))
 	} else {
